@@ -124,11 +124,34 @@ pub fn runhist(args: &crate::Args) -> Report {
             // "wrap" profile: commit just before the head reaches the region end, so that the next append wraps to the
             // region start (an append that finds pending records in its way grows the region instead)
             let near_end = profile == "wrap" && w.mem.as_ref().is_some_and(|m| { let st = memvid_core::verif_hooks::handle_state(m); st[2] > 0 && st[0] + 9000 > st[6] });
-            let op = if near_end {
+            // "reuse" profile: metadata-only updates of older, un-chunked documents (the new version re-uses the stored payload of the
+            // old one, so a higher frame id points at a lower offset) with other documents stored behind them
+            let reuse_target: Option<u64> = if profile == "reuse" && i % 3 == 0 {
+                active.iter().copied().filter(|t| w.model.frames.get(*t as usize).is_some_and(|m| m.chunk_children.is_empty())).min()
+            } else { None };
+            // "tomb" profile: put, put, put, commit, then a delete and an update that stay in the log (seed images for the
+            // recovery checks: the replay has to apply a tombstone and an update, not just inserts)
+            let tomb: Option<Value> = if profile == "tomb" {
+                Some(match i {
+                    1..=3 => Value::Null, // a put, generated below
+                    4 => json!({"op": "commit"}),
+                    5 => json!({"op": "delete", "target": active.first().copied().unwrap_or(0)}),
+                    6 => { let token = w.next_token(); json!({"op": "update", "target": active.get(1).copied().unwrap_or(1), "gen": w.rng.next(), "token": token, "title": "Upd"}) }
+                    _ => json!({"op": "commit"}),
+                })
+            } else { None };
+            let op = if let Some(v) = tomb.clone().filter(|v| !v.is_null()) {
+                v
+            } else if near_end {
                 json!({"op": "commit"})
-            } else if roll < 50 || active.is_empty() {
+            } else if let Some(t) = reuse_target {
                 let token = w.next_token();
-                let class = if profile == "tiny" { [0u64, 1, 2, 3, 6, 8, 0, 4][w.rng.below(8) as usize] } else if profile == "wrap" || profile == "churn" { [20u64, 20, 20, 0, 5][w.rng.below(5) as usize] } else { w.rng.below(if profile == "corpus" { 9 } else { 10 }) };
+                json!({"op": "update", "target": t, "gen": None::<u64>, "token": token, "title": format!("Retitled {n}")})
+            } else if profile == "reuse" && i % 3 == 2 {
+                json!({"op": "commit"})
+            } else if roll < 50 || active.is_empty() || (profile == "reuse" && i % 3 == 1) || tomb.is_some() {
+                let token = w.next_token();
+                let class = if profile == "tiny" || profile == "reuse" || profile == "tomb" { [0u64, 1, 2, 3, 6, 8, 0, 4][w.rng.below(8) as usize] } else if profile == "wrap" || profile == "churn" { [20u64, 20, 20, 0, 5][w.rng.below(5) as usize] } else { w.rng.below(if profile == "corpus" { 9 } else { 10 }) };
                 let mut op = json!({"op": "put", "token": token, "uri": format!("mv2://{}/Doc{n}", w.rng.pick(&["docs", "Notes"])), "ts": 1_700_000_000 + n as i64 * 10, "instant": w.rng.chance(1, 4), "gen": w.rng.next(),
                     "title": format!("Title {n}"), "tags": if w.rng.chance(1, 2) { vec![format!("tag{}", n % 3)] } else { vec![] }});
                 match class {
@@ -165,9 +188,14 @@ pub fn runhist(args: &crate::Args) -> Report {
             };
             if !step(&mut w, i, &op, &mut contents, &mut states) { break; }
         }
-        if profile == "corpus" || profile == "tiny" || args.flag("final-commit") {
+        if profile == "corpus" || profile == "tiny" || profile == "reuse" || args.flag("final-commit") {
             let i = states.len();
             let _ = step(&mut w, i, &json!({"op": "commit"}), &mut contents, &mut states);
+        }
+        // compaction rewrites every kept payload: where each one lands must not depend on the run
+        if args.flag("final-vacuum") && !w.failed {
+            let i = states.len();
+            let _ = step(&mut w, i, &json!({"op": "vacuum"}), &mut contents, &mut states);
         }
     }
     if let Some(p) = args.str("states") {
